@@ -123,40 +123,45 @@ def run_tree(case, ctx):
         src, dst = case['alias']
         if src in t and isinstance(dict.__getitem__(t, src), dict):
             dict.__setitem__(t, dst, dict.__getitem__(t, src))
+    eb = case.get('empty_branch')
+    if eb:
+        # t also holds a branch without leaves (that u never writes into): a merge keeps it like everything else of t
+        dict.__setitem__(t, 'eb', {} if eb == 'flat' else {'x': {}, 'y': 1})
     mt = plainify(t)
     s0 = idsnap(t)
-    st, items = ctx.call(tree_items, t)
-    exp_items = m_items(mt)
-    ok = st == 'ok' and isinstance(items, list) and len(items) == len(exp_items) and all(isinstance(a, tuple) and a[:-1] == b[:-1] and same(a[-1], b[-1]) for a, b in zip(items, exp_items))
-    if not ctx.check('flatten_rebuild_inverse', ok, lambda: 'tree_items(%r) = %r, model %r' % (case['t'], items, exp_items)):
-        return
-    st, back = ctx.call(items_to_tree, items)
-    ctx.check('flatten_rebuild_inverse', st == 'ok' and teq(back, mt) and back == t, lambda: 'items_to_tree(tree_items(t)) = %r != t = %r' % (back, mt))
-    st1, ks = ctx.call(tree_keys, t)
-    st2, vs = ctx.call(tree_values, t)
-    ctx.check('keys_values_align', st1 == st2 == 'ok' and list(ks) == [i[:-1] for i in exp_items] and len(vs) == len(exp_items) and all(same(a, b[-1]) for a, b in zip(vs, exp_items)),
-              lambda: 'tree_keys=%r tree_values=%r items=%r' % (ks, vs, exp_items))
-    for it in exp_items:
-        path, leaf = list(it[:-1]), it[-1]
-        dotted = any('.' in k for k in path) or any('.' in k for k in _all_keys(mt))
-        for p in ((path, tuple(path)) if dotted else (path, '.'.join(path), tuple(path))):
-            st, got = ctx.call(tree_getitem, t, p)
-            if not ctx.check('getitem_per_path', st == 'ok' and (got is leaf or same(got, leaf)), lambda: 'tree_getitem(t, %r) = %s %r expected %r' % (p, st, got, leaf)):
-                return
-        st, got = ctx.call(tree_get, t, path if dotted else '.'.join(path))
-        ctx.check('getitem_per_path', st == 'ok' and same(got, leaf), lambda: 'tree_get(t, %r) = %r' % (path, got))
-    ctx.check('operands_unmodified_deep', idsnap_same(idsnap(t), s0), lambda: 'flatten/getitem modified t')
-    if exp_items and not case.get('alias') and not any('.' in k for k in _all_keys(mt)):
-        # tree_setitem on an existing leaf path of a private copy: exactly that leaf changes
-        from pyg_base._dict import tree_setitem
-        import copy as _copy
-        priv = _copy.deepcopy(t)
-        it = exp_items[len(exp_items) // 2]
-        path = list(it[:-1])
-        st, _ = ctx.call(tree_setitem, priv, '.'.join(path) if len(path) % 2 else tuple(path), 'NEW')
-        after = m_items(plainify(priv)) if st == 'ok' else None
-        want = [i if list(i[:-1]) != path else tuple(path) + ('NEW',) for i in exp_items]
-        ctx.check('setitem_changes_one_leaf', st == 'ok' and len(after) == len(want) and all(a[:-1] == b[:-1] and same(a[-1], b[-1]) for a, b in zip(after, want)), lambda: 'tree_setitem(t, %r, NEW) -> %s %r' % (path, st, after))
+    if not eb:      # flatten / rebuild / getitem are stated for trees whose branches are non-empty
+        st, items = ctx.call(tree_items, t)
+        exp_items = m_items(mt)
+        ok = st == 'ok' and isinstance(items, list) and len(items) == len(exp_items) and all(isinstance(a, tuple) and a[:-1] == b[:-1] and same(a[-1], b[-1]) for a, b in zip(items, exp_items))
+        if not ctx.check('flatten_rebuild_inverse', ok, lambda: 'tree_items(%r) = %r, model %r' % (case['t'], items, exp_items)):
+            return
+        st, back = ctx.call(items_to_tree, items)
+        ctx.check('flatten_rebuild_inverse', st == 'ok' and teq(back, mt) and back == t, lambda: 'items_to_tree(tree_items(t)) = %r != t = %r' % (back, mt))
+        st1, ks = ctx.call(tree_keys, t)
+        st2, vs = ctx.call(tree_values, t)
+        ctx.check('keys_values_align', st1 == st2 == 'ok' and list(ks) == [i[:-1] for i in exp_items] and len(vs) == len(exp_items) and all(same(a, b[-1]) for a, b in zip(vs, exp_items)),
+                  lambda: 'tree_keys=%r tree_values=%r items=%r' % (ks, vs, exp_items))
+        for it in exp_items:
+            path, leaf = list(it[:-1]), it[-1]
+            dotted = any('.' in k for k in path) or any('.' in k for k in _all_keys(mt))
+            for p in ((path, tuple(path)) if dotted else (path, '.'.join(path), tuple(path))):
+                st, got = ctx.call(tree_getitem, t, p)
+                if not ctx.check('getitem_per_path', st == 'ok' and (got is leaf or same(got, leaf)), lambda: 'tree_getitem(t, %r) = %s %r expected %r' % (p, st, got, leaf)):
+                    return
+            st, got = ctx.call(tree_get, t, path if dotted else '.'.join(path))
+            ctx.check('getitem_per_path', st == 'ok' and same(got, leaf), lambda: 'tree_get(t, %r) = %r' % (path, got))
+        ctx.check('operands_unmodified_deep', idsnap_same(idsnap(t), s0), lambda: 'flatten/getitem modified t')
+        if exp_items and not case.get('alias') and not any('.' in k for k in _all_keys(mt)):
+            # tree_setitem on an existing leaf path of a private copy: exactly that leaf changes
+            from pyg_base._dict import tree_setitem
+            import copy as _copy
+            priv = _copy.deepcopy(t)
+            it = exp_items[len(exp_items) // 2]
+            path = list(it[:-1])
+            st, _ = ctx.call(tree_setitem, priv, '.'.join(path) if len(path) % 2 else tuple(path), 'NEW')
+            after = m_items(plainify(priv)) if st == 'ok' else None
+            want = [i if list(i[:-1]) != path else tuple(path) + ('NEW',) for i in exp_items]
+            ctx.check('setitem_changes_one_leaf', st == 'ok' and len(after) == len(want) and all(a[:-1] == b[:-1] and same(a[-1], b[-1]) for a, b in zip(after, want)), lambda: 'tree_setitem(t, %r, NEW) -> %s %r' % (path, st, after))
     # ---- update
     if 'u' in case:
         u = codec.dec(case['u'])
@@ -177,6 +182,13 @@ def run_tree(case, ctx):
         if isinstance(t, Dict) and ignore is None:
             st, r4 = ctx.call(lambda: t + u)
             ctx.check('dict_add', st == 'ok' and teq(r4, exp) and type(r4) is type(t), lambda: 'Dict + dict = %r, merge %r' % (r4, exp))
+            if st == 'ok' and isinstance(r4, Dict):
+                # a sum is a tree like any other: used as the left operand again it is not modified
+                s4 = idsnap(r4)
+                u2 = {'zz': {'w': 1}, 'a': 'again'}
+                st5, r5 = ctx.call(lambda: r4 + u2)
+                ctx.check('dict_add', st5 == 'ok' and teq(r5, m_merge(exp, u2, [])), lambda: '(t + u) + u2 = %r, merge %r' % (r5, m_merge(exp, u2, [])))
+                ctx.check('operands_unmodified_deep', idsnap_same(idsnap(r4), s4) and teq(r4, exp), lambda: '(t + u) was modified when it was used as the left operand of another +: now %r, was %r' % (plainify(r4), exp))
             ctx.check('operands_unmodified_deep', idsnap_same(idsnap(t), s0) and idsnap_same(idsnap(u), su), lambda: 'Dict + dict modified an operand at depth')
         if depth2_shared(mt, mu):
             ctx.mark_nontrivial(case)
@@ -202,6 +214,8 @@ def run_table(case, ctx):
             node = node.setdefault(k, {})
         node[item[-2]] = item[-1]
     src = dictable(rows) if case.get('as_dictable') and rows else list(rows)
+    if case.get('as_row_dict') and len(rows) == 1:
+        src = dict(rows[0])           # a one-row table given as the row itself
     st, tree = ctx.call(table_to_tree, None, pattern, src)
     if not ctx.check('table_tree_inverse', st == 'ok' and teq(tree, mt), lambda: 'table_to_tree(None, %r, %r) = %s %r, model %r' % (pattern, rows, st, tree, mt)):
         return
@@ -273,9 +287,9 @@ def gen_case(rng):
                 continue
             seen.add(key)
             if last_wild:
-                r[segs[-1][1:]] = rng.choice([1, 2, 'v', 0.5, 'p', 0, '', None, 0.0])
+                r[segs[-1][1:]] = rng.choice([1, 2, 'v', 0.5, 'p', 0, '', None, 0.0, [100, -40], [], ['x']])
             rows.append(r)
-        return {'kind': 'table', 'pattern': '/'.join(segs), 'rows': rows, 'as_dictable': rng.random() < 0.5}
+        return {'kind': 'table', 'pattern': '/'.join(segs), 'rows': rows, 'as_dictable': rng.random() < 0.5, 'as_row_dict': rng.random() < 0.5}
     root = rng.choice(['dict', 'dict', 'Dict', 'dictattr'])
     r_ = rng.random()
     keys = DOTTED if r_ < 0.2 else (['tree', 'ignore', 'types', 'items', 'data', 'key'] if r_ < 0.28 else KEYS)     # keys called like the parameters of the tree functions
@@ -286,7 +300,9 @@ def gen_case(rng):
         case['alias'] = [rng.choice(KEYS), rng.choice(KEYS + ['f'])]
         if case['alias'][0] == case['alias'][1]:
             del case['alias']
-    if rng.random() < 0.8:
+    if rng.random() < 0.1 and 'alias' not in case:
+        case['empty_branch'] = rng.choice(['flat', 'nested'])
+    if rng.random() < 0.8 or case.get('empty_branch'):
         case['u'] = gen_tree(rng, rng.randint(1, 4), rng.choice(['dict', 'dict', 'Dict', 'dictattr']), keys)
         if rng.random() < 0.35:
             case['ignore'] = rng.choice([[None], [None, 0], [0, ''], [None, 'x', 1], ['y']])
